@@ -28,6 +28,7 @@ DOC = {
  "C20.R8": "error discipline: no NodeSession handler propagates (`?`) the result of stop_and_wait / kill_and_wait / drain_and_wait on a proxy (a proxy that is already gone must not fail the session)",
  "C20.R9": "the future of read_network_message is awaited directly, never through timeout/select (the reader is not cancellation safe)",
  "C20.R10": "after_authenticated: no Spawn / PgJoin frame is sent after the Ready frame",
+ "C20.R11": "subscribe-then-snapshot: in after_authenticated the pid-registry enumeration is dominated by pid_registry::monitor and the process-group enumeration by pg::monitor and pg::monitor_scope (an actor appearing concurrently is in the snapshot or announced by an event, never in neither)",
  "C20.R5": "delivery path is inline: every send_serialized of handle_node is executed in handle_node itself (none inside a spawned task); the proxy's handle_serialized and the session's send path spawn nothing",
 }
 
@@ -409,6 +410,28 @@ def r10(run, db):
             run.check(not late, "ready-after-sync", "no Spawn / PgJoin frame can be sent after the Ready frame", "after_authenticated sends Ready before the group synchronisation: the peer reports the session ready while the remote references are still in none of their groups", f.where())
 
 
+def r11(run, db):
+    """subscribe-then-snapshot: the initial synchronisation enumerates the pid registry / the process groups only after the
+    session subscribed to their change events, so a local actor registered (or a member joined) concurrently is either in the
+    snapshot or announced by an event -- never in neither (such an actor is never advertised: every cast/call to its remote
+    reference is refused by the allow-list of C17.R5)"""
+    fs_ = [f for f in db.crate_fns(RC) if re.search(r"NodeSession::after_authenticated$", f.id)]
+    run.anchor("after_authenticated", len(fs_), 1)
+    PAIRS = [("pid registry", r"registry::(pid_registry::)?get_all_pids$", [r"pid_registry::monitor$"]),
+             ("process groups", r"pg::which_scopes_and_groups$", [r"pg::monitor$", r"pg::monitor_scope$"])]
+    for f in fs_:
+        run.saw(len(f.blocks), f)
+        for what, snap_rx, sub_rxs in PAIRS:
+            snaps = [c for c in f.calls() if c.matches(snap_rx)]
+            run.anchor("snapshot of the %s in after_authenticated" % what, len(snaps), 1, f.where())
+            for sc in snaps:
+                for srx in sub_rxs:
+                    subs = [c for c in f.calls() if c.matches(srx)]
+                    run.check(any(f.dominates(m.site, sc.site) for m in subs), "subscribe-before-snapshot:%s:%s" % (what.replace(" ", "-"), srx.split("::")[-1].rstrip("$")),
+                              "the %s snapshot is taken after the subscription %s" % (what, srx.rstrip("$")),
+                              "after_authenticated enumerates the %s before (or without) subscribing through %s: an actor registered between the snapshot and the subscription is neither listed nor announced, so it is never advertised to the peer and traffic to its remote reference is dropped" % (what, srx.rstrip("$")), sc.where())
+
+
 Q = ["rc"]
 TH = ["rc", "rcatr"]
-RULES = [{"id": "C20.R%d" % i, "fn": f, "quick": Q, "thorough": TH} for i, f in enumerate([r1, r2, r3, r4, r5, r6, r7, r8, r9, r10], 1)]
+RULES = [{"id": "C20.R%d" % i, "fn": f, "quick": Q, "thorough": TH} for i, f in enumerate([r1, r2, r3, r4, r5, r6, r7, r8, r9, r10, r11], 1)]
